@@ -146,11 +146,16 @@ fn node_op(i: usize, kinds: Vec<Kind>, opts: GenOpts) -> BoxedStrategy<ROp> {
     let kinds2 = kinds.clone();
     let kinds3 = kinds.clone();
     let sub = prop::collection::vec(basic_op(opts.faults), 1..3);
-    let catch_sub = (prop::collection::vec(basic_op(opts.faults), 0..3), prop::bool::weighted(0.6)).prop_map(|(mut v, p)| {
+    let catch_sub = (prop::collection::vec(basic_op(opts.faults), 0..3), prop::bool::weighted(0.6), 0u8..4).prop_map(|(mut v, p, wrap)| {
         if p {
             v.push(ROp::Panic);
         }
-        v
+        // the panic may come out of a no_record block (entered through this or the other cache)
+        match wrap {
+            0 => vec![ROp::NR(v)],
+            1 => vec![ROp::NRO(v)],
+            _ => v,
+        }
     });
     prop_oneof![
         10 => basic_op(opts.faults),
@@ -159,6 +164,7 @@ fn node_op(i: usize, kinds: Vec<Kind>, opts: GenOpts) -> BoxedStrategy<ROp> {
         // look-ups stay acyclic here (cyclic look-ups are C08's domain: no fixed point exists for values)
         if lower > 0 { 3 } else { 0 } => (0..lower.max(1)).prop_map(move |j| ROp::G { kind: kinds3[j], id: format!("n{j}") }),
         opts.blocks => sub.clone().prop_map(ROp::NR),
+        opts.blocks => sub.clone().prop_map(ROp::NRO),
         opts.blocks => sub.clone().prop_map(ROp::TH),
         opts.blocks => sub.prop_map(ROp::OC),
         opts.blocks => catch_sub.prop_map(ROp::Catch),
